@@ -146,11 +146,61 @@ func deleteMessage(s *Schema, ml *MsgLoc) []Expect {
 	} else {
 		ml.F.Messages = removeMsg(ml.F.Messages, ml.M)
 	}
-	_, msgs, _, _ := s.pkgCounts(ml.F.Package)
-	return []Expect{
+	_, msgs, enums, exts := s.pkgCounts(ml.F.Package)
+	exp := []Expect{
 		eDeletedIn("MESSAGE_NO_DELETE", ml.F, parentFull),
 		pkgLastClass(eDeletedIn("PACKAGE_MESSAGE_NO_DELETE", ml.F, parentFull), msgs),
 	}
+	// what is declared INSIDE the deleted message goes with it: its enums and extensions (at any
+	// depth) are deleted elements of their own, owed an annotation at the closest SURVIVING
+	// ancestor - the parent of the deleted message, not their own (deleted) parent
+	innerEnum, innerExt := firstInner(ml.M, ml.Full)
+	if innerEnum != "" {
+		e := eDeletedIn("ENUM_NO_DELETE", ml.F, parentFull)
+		e.About = "enum:" + innerEnum
+		pe := pkgLastClass(eDeletedIn("PACKAGE_ENUM_NO_DELETE", ml.F, parentFull), enums)
+		pe.About = e.About
+		exp = append(exp, e, pe)
+	}
+	if innerExt != "" {
+		e := eDeletedIn("EXTENSION_NO_DELETE", ml.F, parentFull)
+		e.About = "ext:" + innerExt
+		pe := pkgLastClass(eDeletedIn("PACKAGE_EXTENSION_NO_DELETE", ml.F, parentFull), exts)
+		pe.About = e.About
+		exp = append(exp, e, pe)
+	}
+	return exp
+}
+
+// firstInner: full names of the first enum and the first extension declared inside m (depth
+// first, groups included); "" when there is none.
+func firstInner(m *Message, full string) (enum, ext string) {
+	if len(m.Enums) > 0 {
+		enum = full + "." + m.Enums[0].Name
+	}
+	for _, x := range m.Extends {
+		if len(x.Fields) > 0 && ext == "" {
+			ext = full + "." + x.Fields[0].Name
+		}
+	}
+	sub := func(n *Message) {
+		e, x := firstInner(n, full+"."+n.Name)
+		if enum == "" {
+			enum = e
+		}
+		if ext == "" {
+			ext = x
+		}
+	}
+	for _, n := range m.Nested {
+		sub(n)
+	}
+	for _, f := range m.Fields {
+		if f.Group != nil {
+			sub(f.Group)
+		}
+	}
+	return
 }
 
 func deletableMsg(s *Schema, ml *MsgLoc) bool {
